@@ -41,6 +41,7 @@ func checkC20(r *Report, p *Program) {
 	etagEnabledTable(r, p, "R20.11")
 	webhookURLTable(r, p, "R20.12")
 	stopChannelHandedOut(r, p, "R20.13")
+	stopDoneProtocol(r, p, "R20.15")
 	// the reconcilers' error checks mean what they say (a start that is skipped on success, or goes on after a failure)
 	errorChecksMeanWhatTheySay(r, p, "R20.10")
 }
